@@ -6,7 +6,7 @@
 From Coq Require Import ZArith List Bool Lia.
 Import ListNotations.
 Require Import Base.Py Base.ZList Gen.Gen_tags Model.Splice Model.Fam_flac
-  Proofs.Fam_flac_codec Proofs.Fam_flac_walk Proofs.Fam_flac_save Proofs.Fam_flac_thms Proofs.Fam_flac_final Proofs.Fam_flac_examples.
+  Proofs.Fam_flac_codec Proofs.Fam_flac_walk Proofs.Fam_flac_save Proofs.Fam_flac_thms Proofs.Fam_flac_final Proofs.Fam_flac_session Proofs.Fam_flac_examples.
 Open Scope Z_scope.
 
 (* integer codecs of the two formats *)
@@ -53,6 +53,15 @@ Theorem C01_flac_save_load : forall f t o f', flac_wf f = true -> o_deleteid3 o 
   flac_save f t o = Ok f' -> flac_load f' = Ok (Some t).
 Proof. exact save_load. Qed.
 Print Assumptions C01_flac_save_load.
+(* the same through a live object whose block list is consistent with the file (see C03_flac_session) *)
+Theorem C01_flac_save_load_live : forall f st bs0 t o f', flac_parse f = Ok st -> struct_wf st = true -> consistent bs0 st ->
+  o_deleteid3 o = false -> flac_save_obj f bs0 t o = Ok f' ->
+  exists st', flac_parse f' = Ok st' /\ struct_wf st' = true /\ same_foreign st st' /\
+    consistent (match t with Some t => set_vc bs0 (vc_render t) | None => bs0 end) st' /\
+    (forall t', t = Some t' -> flac_load f' = Ok (Some t')).
+Proof. exact save_obj_consistent. Qed.
+Print Assumptions C01_flac_save_load_live.
+
 (* and a save of valid tags that fit a metadata block does succeed *)
 Theorem C01_flac_save_total : forall f t o, flac_wf f = true -> o_deleteid3 o = false ->
   vc_valid t = true -> vc_fits32 t = true -> zlen (vc_render t) <= MAXSZ -> exists f', flac_save f t o = Ok f'.
